@@ -285,6 +285,7 @@ void PCA(matrix *mx, int scaling, size_t npc, PCAMODEL* model, ssignal *s)
       while(1){
         it++;
         /* Step 2: projection of t' in E (t'*E) */
+        DVectorSet(p, 0.f); /* the product accumulates into p: start from 0, not from the previous loading */
         MT_DVectorMatrixDotProduct(E, t, p);
         /* calc the vectors product t'*t = Sum(t[i]^2) */
         mod_t = DVectorDVectorDotProd(t, t);
